@@ -27,10 +27,11 @@
               + [InlineFragment(T, [s.to_ast(idx, used) for s in subs]) for T, subs in _inline_fragments.items()]
         get_formatted_variables():
               d = self.formatted_variables.copy()
-              for s in _subfields:            s.get_formatted_variables(); d.update(s.formatted_variables)
+              for s in _subfields:            d.update(s.get_formatted_variables())
               for subs in _inline_fragments.values():
-                  for s in subs:              s.get_formatted_variables(); d.update(s.formatted_variables)
-              return d                         # the recursive result is DISCARDED: only depth <= 2 survives
+                  for s in subs:              d.update(s.get_formatted_variables())
+              return d                         # (since dfbc7ef; before, the recursive result was discarded
+                                               #  and only depth <= 2 survived - finding C14-F2, fixed)
 
   generated classes (custom_fields.py / custom_typing_fields.py / custom_queries.py / custom_mutations.py)
 
@@ -226,30 +227,42 @@ def dictUpdate (d : List FVar) (x : FVar) : List FVar :=
 
 def dictUpdateAll (d : List FVar) (xs : List FVar) : List FVar := xs.foldl dictUpdate d
 
-/-- `node.formatted_variables` of a (possibly shared) object -/
-def nodeFormatted (st : Store) : Node → List FVar
-  | .obj r _ _ => r.formatted
-  | .ref id =>
+abbrev GVisit := Node → Except Err (List FVar)
+
+/-- `for s in nodes: d.update(s.get_formatted_variables())` -/
+def gfvList (f : GVisit) : List FVar → List Node → Except Err (List FVar)
+  | d, [] => .ok d
+  | d, n :: ns =>
+    match f n with
+    | .error e => .error e
+    | .ok x => gfvList f (dictUpdateAll d x) ns
+
+/-- the loop over `_inline_fragments.values()` -/
+def gfvFrags (f : GVisit) : List FVar → List Frag → Except Err (List FVar)
+  | d, [] => .ok d
+  | d, .mk _ ns :: fs =>
+    match gfvList f d ns with
+    | .error e => .error e
+    | .ok d1 => gfvFrags f d1 fs
+
+/-- `get_formatted_variables()`: own `formatted_variables`, then - recursively - those of every sub-field
+    and of every member of every inline fragment, merged with `dict.update`.  The recursion follows
+    references into the store, hence the fuel (same accounting as `toAst`: it runs out only on a cyclic
+    object graph, on which `to_ast` has already raised RecursionError). -/
+def getFormatted : Nat → Store → GVisit
+  | 0, _, _ => .error .recursion
+  | fuel + 1, st, .obj r subs frags =>
+    match gfvList (getFormatted fuel st) r.formatted subs with
+    | .error e => .error e
+    | .ok d1 => gfvFrags (getFormatted fuel st) d1 frags
+  | fuel + 1, st, .ref id =>
     match st[id]? with
-    | some (.obj r _ _) => r.formatted
-    | _ => []
+    | none => .error (.internal "dangling shared object id")
+    | some n => getFormatted fuel st n
 
-def fragNodes : Frag → List Node
-  | .mk _ ns => ns
-
-def getFormattedOf (st : Store) (r : Rec) (subs : List Node) (frags : List Frag) : List FVar :=
-  let d1 := subs.foldl (fun d c => dictUpdateAll d (nodeFormatted st c)) r.formatted
-  frags.foldl (fun d f => (fragNodes f).foldl (fun d c => dictUpdateAll d (nodeFormatted st c)) d) d1
-
-def getFormatted (st : Store) : Node → List FVar
-  | .obj r subs frags => getFormattedOf st r subs frags
-  | .ref id =>
-    match st[id]? with
-    | some (.obj r subs frags) => getFormattedOf st r subs frags
-    | _ => []
-
-def combine (st : Store) (nodes : List Node) : List FVar :=
-  nodes.foldl (fun d n => dictUpdateAll d (getFormatted st n)) []
+/-- `_combine_variables`: `for field in fields: fv = field.get_formatted_variables(); ….update(fv)` -/
+def combine (fuel : Nat) (st : Store) (nodes : List Node) : Except Err (List FVar) :=
+  gfvList (getFormatted fuel st) [] nodes
 
 /-! ### the client: `_build_selection_set`, `execute_custom_operation` -/
 
@@ -281,9 +294,11 @@ def execOp (opType name : String) (st : Store) (nodes : List Node) : Except Err 
   match buildSelections (opFuel st nodes) 0 st nodes with
   | .error e => .error e
   | .ok (sels, nodes', st') =>
-    let fv := combine st' nodes'
-    .ok ({ opType := opType, name := name, varDefs := fv.map fun v => (v.uname, v.ty), sels := sels,
-           values := fv.map fun v => (v.uname, v.value) }, st')
+    match combine (opFuel st nodes) st' nodes' with
+    | .error e => .error e
+    | .ok fv =>
+      .ok ({ opType := opType, name := name, varDefs := fv.map fun v => (v.uname, v.ty), sels := sels,
+             values := fv.map fun v => (v.uname, v.value) }, st')
 
 /-! ### generated accessors and builder expressions -/
 
